@@ -54,7 +54,7 @@ CHECKS = {
   technique="property-based testing (rapid): round-trip oracle against the generating model + scanner differential"),
  "C05": dict(
   level="exploration",
-  text="9 500 cases per quick run: OSM values round-tripped under three codec configurations with a generic shape check of the output, and independently written osmjson documents (version number/string/absent, unknown keys, Overpass/API styles) decoded and compared with the model. Sampled.",
+  text="9 500 cases per quick run: OSM values round-tripped under five codec configurations (incl. only one half of a custom codec installed), by pointer and by value, with a generic shape check of the output, and independently written osmjson documents (version number/string/absent, unknown keys, Overpass/API styles) decoded and compared with the model. Sampled.",
   note="Custom codecs are harness-written implementations over encoding/json (json-iterator cannot run here); tag keys unique; codec variables are process-global and restored per case.",
   technique="property-based testing (rapid): shape predicate on generically parsed output, round-trip and independent-writer oracles, codec differential with call counting"),
  "C11": dict(
@@ -64,7 +64,7 @@ CHECKS = {
   technique="property-based testing (rapid): ground-truth timeline generation, state-at-time oracle, time-travel metamorphic check"),
  "C12": dict(
   level="exploration",
-  text="2 500 histories per quick run biased to parents with >12 updates and same-second version clusters, each annotated 8 times on freshly built equal input; all runs must agree byte for byte (or all fail) and every update list must be sorted by (index, time, version). Map iteration orders are sampled by repetition.",
+  text="2 500 histories per quick run biased to parents with >12 updates and same-second version clusters, each annotated 8 times on freshly built equal input; all runs must agree byte for byte (or all fail) and every update list must be sorted by (index, time, version); plus 4 000 direct SortByIndex cases over the whole range of time.Time. Map iteration orders are sampled by repetition.",
   note="Go randomises map iteration per range statement; 8 repetitions per case sample it. Error identity may differ between runs.",
   technique="property-based testing (rapid): repeated-execution determinism oracle + sortedness invariant"),
  "C13": dict(
@@ -74,7 +74,7 @@ CHECKS = {
   technique="property-based testing (rapid): reference-model oracle"),
  "C14": dict(
   level="exploration",
-  text="10 000 reference graphs per quick run (DAGs, cycles, self loops, missing histories, multi-version member sets) with complete runs, Close after k and cancel after k; validity predicate on the emitted sequence (once, only with history, requested-or-reachable, children first on acyclic graphs for every prefix) plus deadlock and goroutine-leak detection. Stop interleavings are sampled.",
+  text="10 000 reference graphs per quick run (DAGs, cycles, self loops, missing histories, multi-version member sets) with complete runs, Close after k and cancel after k; validity predicate on the emitted sequence (once, only with history, requested-or-reachable, children first on acyclic graphs for every prefix) plus deadlock and goroutine-leak detection; sub-checks add chains of 90..260 levels and two orderings alive at once; lookups may fail with a real error. Stop interleavings are sampled.",
   note="Relation ids >= 1; order judged only when the whole graph is acyclic, as the statement says; 10 s deadline + goroutine dump distinguishes blocked from slow.",
   technique="property-based testing (rapid): validity-predicate oracle over generated graphs and stop plans, watchdog for termination"),
  "C15": dict(
@@ -84,7 +84,7 @@ CHECKS = {
   technique="property-based testing (rapid): reference-model oracle + metamorphic relations (composition, LineStringAt vs apply-on-copy)"),
  "C16": dict(
   level="exploration",
-  text="5 000 ground-truth polygon sets per quick run (jittered and integer-grid rings, holes, 1..4 outers) cut, reversed and shuffled, each converted in 6 configurations (coordinate source x orientation annotation mode); result compared with the ground truth as sets of canonical rings, winding by shoelace; orientation annotations compared with piece direction.",
+  text="5 000 ground-truth polygon sets per quick run (jittered and integer-grid rings, holes, 1..4 outers) cut, reversed and shuffled, each converted in 15 configurations (three coordinate sources x five orientation annotation modes, incl. partial annotations and two relations over the same ways); result compared with the ground truth as sets of canonical rings, winding by shoelace; orientation annotations compared with piece direction.",
   note="Ground truth is simple, disjoint, holes strictly inside, no vertex at (0,0); exact float equality because coordinates are copied.",
   technique="property-based testing (rapid): ground-truth reconstruction oracle + configuration differential"),
  "C17": dict(
@@ -99,7 +99,7 @@ CHECKS = {
   technique="exhaustive enumeration of the rule table + property-based testing (rapid) of random tag sets; direct rule-text oracle"),
  "C19": dict(
   level="exploration",
-  text="10 000 generated replication directories x query times per quick run served by an in-process RoundTripper (thorough: also a loopback server): result compared with the first available state at or after t, every request path validated, request count bounded.",
+  text="10 000 generated replication directories x query times per quick run served by an in-process RoundTripper and (150 cases) by a gzip-compressing loopback server: result compared with the first available state at or after t, every request path validated, request count bounded.",
   note="Current state always exists; timestamps increase; budget 8*(log2(cur)+2)+4*missing+16; queries before every state only with missing prefixes <= 2000 files.",
   technique="property-based testing (rapid) with fault injection (404 patterns): reference search oracle + request-path and request-budget invariants"),
  "C20": dict(
